@@ -4,10 +4,14 @@ C18 — "a reported class group is the true class group": the part that can be p
 PARTIAL BY NATURE. The class number reported by `classgroup::classgroup` is a divisor of a gcd
 of determinants selected by an analytic estimate (`estimate`: a truncated Euler product in f64),
 and the relations come from a sieve whose correctness rests on the theory of composition of
-binary quadratic forms. Neither "the estimate brackets h" nor "a sieved relation is a genuine
-relation" is a theorem here; both are explored by the correspondence/oracle runs of
-props/c18.py (independent reduced-form counts, independent form arithmetic on every line of
-relations.sieve). What IS proved, for all inputs, about the models of Ymq/Model/ClassGroup.lean:
+binary quadratic forms. "The estimate brackets h" is not a theorem here; it is explored by the
+correspondence/oracle runs of props/c18.py (independent reduced-form counts). "A sieved relation
+is a genuine relation" is proved in Ymq/Props/C18Forms.lean (`relation_genuine`: the prime forms of
+the entries of a relation built by `relationOf` compose, by explicit Dirichlet compositions, to the
+principal form); that composition is well defined on classes (Gauss) is not formalised, and every
+line of relations.sieve of the sampled runs is still re-checked by independent form arithmetic.
+`classgroup::legendre` is in Ymq/Props/C18Legendre.lean.
+What IS proved in this file, for all inputs, about the models of Ymq/Model/ClassGroup.lean:
 
 * `b_plus_unique`, `bPlus_spec_odd`, `bPlus_spec_even`: the documented sign convention is well
   defined (exactly one normalised root per prime) and `Prime::b_plus` returns it;
